@@ -22,6 +22,7 @@ var witnesses = map[string]func() (bool, string){}
 var regressions = map[string][]string{
 	"C03": {"B35", "B35h"},
 	"C09": {"B35h", "B4"},
+	"C10": {"B44"},
 }
 
 func main() {
